@@ -186,3 +186,13 @@ Definition ladder (eq : mesh -> mesh -> bool) (disable_dim disable_reorder both_
       let '(a2, b2) := lv_sorted_points v in
       if eq a2 b2 then (true, 2)
       else let '(a3, b3) := lv_sorted_cells v in (eq a3 b3, 3).
+
+(* ---- the command line's mesh comparison (_cli/_file_comparison.py: _compare_mesh_field_data) ------------------------
+   fixed (31ec1de): always through MeshFieldsComparator, which is handed all three options;
+   pinned: with --disable-mesh-reordering the plain field data comparator was used — the as-is views only, whatever
+   the other options say. *)
+Definition cli_mesh_fixed (eq : mesh -> mesh -> bool) (disable_dim disable_reorder both_structured : bool) (v : ladder_views) : bool :=
+  fst (ladder eq disable_dim disable_reorder both_structured v).
+Definition cli_mesh_pinned (eq : mesh -> mesh -> bool) (disable_dim disable_reorder both_structured : bool) (v : ladder_views) : bool :=
+  if disable_reorder then (let '(a0, b0) := lv_as_is v in eq a0 b0)
+  else fst (ladder eq disable_dim disable_reorder both_structured v).
